@@ -219,6 +219,7 @@ func (g GRPCAPI) ServeWhoRaw(id uint32, tag string) error {
 	}()
 	return nil
 }
+
 // ServeWhoRawCloser is ServeWhoRaw for an application that closes its listener when it is done: the
 // returned function stops the server and closes the listener.
 func (g GRPCAPI) ServeWhoRawCloser(id uint32, tag string) (func(), error) {
@@ -231,6 +232,7 @@ func (g GRPCAPI) ServeWhoRawCloser(id uint32, tag string) (func(), error) {
 	go s.Serve(ln)
 	return func() { s.Stop(); ln.Close() }, nil
 }
+
 // SharedDialOpts is one option slice with spare capacity, passed by every dialling goroutine (what an
 // application that builds its options once with append does).
 var SharedDialOpts = append(make([]grpc.DialOption, 0, 8), grpc.WithUserAgent("verif-host"))
